@@ -386,6 +386,22 @@ pub fn run_c19(ctx: &Ctx, sizes_override: Option<Vec<usize>>) -> serde_json::Val
         2 => c19_reads::<Kmer15>(c, st),
         _ => c19_reads::<Kmer32>(c, st),
     });
+    let nh = if ctx.is_miri() { 0 } else { ctx.n(5_000, 200_000) };
+    ctx.run_group("handbuilt_small", nh, false, |c| {
+        let par = c.rng.chance(1, 2);
+        let r = match c.rng.below(3) {
+            0 => check_handbuilt::<Kmer4>(&c.rng, par),
+            1 => check_handbuilt::<Kmer5>(&c.rng, par),
+            _ => check_handbuilt::<Kmer6>(&c.rng, par),
+        };
+        let (q, a, p) = r?;
+        c.count("handbuilt_graphs", 1);
+        c.count("queries_found", q - a);
+        c.count("queries_absent", a);
+        c.count("handbuilt_palindromic_terminal_kmers", p);
+        c.nontrivial(H::new().u(c.idx).u(q).u(7).get());
+        Ok(())
+    });
     let sizes: Vec<usize> = match sizes_override {
         Some(v) => v,
         None => {
